@@ -84,6 +84,13 @@ def _bounded(lo, hi, mk):
         a, b, lk, hk, use = t
         if a > b:
             a, b = b, a
+        if a == b:
+            lk, hk = "ge", "le"          # an empty value space is not a meaningful type
+        # a bound outside the width of the type is refused by spyne at declaration time
+        if lk == "gt" and a >= hi:
+            lk = "ge"
+        if hk == "lt" and b <= lo:
+            hk = "le"
         f = {}
         if use & 1:
             f[lk] = mk(a)
